@@ -113,7 +113,8 @@ Next ==
         IF k # {} THEN /\ PrintT(<<"KNOWNDEV", l, CHOOSE t \in k : TRUE>>)
                        /\ taint' = (CHOOSE t \in k : TRUE) /\ l' = l + 1
                        /\ UNCHANGED <<base, members, lcfg, rcfg, okSeq, okTw, nW, cnt, closedSeen, devs>>
-        ELSE PrintT(<<"MISMATCH", l, "event", e.a, "members", members>>) /\ FALSE
+        ELSE /\ PrintT(<<"MISMATCH", l, "event", e.a, "members", members>>)
+             /\ taint' = "?" /\ l' = l + 1 /\ UNCHANGED <<base, members, lcfg, rcfg, okSeq, okTw, nW, cnt, closedSeen, devs>>
 
 HW == TLCSet(1, IF TLCGet(1) < l THEN l ELSE TLCGet(1))
 ASSUME TLCSet(1, 0)
